@@ -614,8 +614,11 @@ func genBody(t *rapid.T, bounds []int, max int, label string) gen.BodySpec {
 	return b
 }
 
+var stackOrder = []string{"P14", "P11", "P13", "P9", "P7", "P6", "P8", "P5", "P4", "P12", "P10", "P3g", "P3", "P2", "P1"}
+
 func genCase(t *rapid.T, env *ev.Env) Case {
-	c := Case{Stack: rapid.SampledFrom(stacks.AllPlain).Draw(t, "stack")}
+	// rapid favours early elements: list the deep compositions first
+	c := Case{Stack: rapid.SampledFrom(stackOrder).Draw(t, "stack")}
 	spec := stacks.Named[c.Stack]
 	bounds := stacks.Boundaries(c.Stack)
 	max := 300000
